@@ -13,7 +13,7 @@ import tempfile
 import numpy as np
 
 from ..core import violation, Discard
-from ..gen_scenes import gen_chain_scene, gen_contact_scene, gen_rod_scene
+from ..gen_scenes import gen_chain_scene, gen_contact_scene, gen_rod_scene, add_knife_edge
 from ..scenes import build, FrameMotion
 from ..seams import Sim
 from ..session import gen_solver, project_velocities, run_solver, require_regular, body_states, make_options
@@ -97,6 +97,10 @@ def gen(rng, tier, index):
         scene["t0"] = float(rng.uniform(-1.0, 2.0))
     if kind == "revolute_spring":
         splits = sorted({int(rng.integers(1, max(n // 4, 2))), *splits[1:]})
+    nh = kind == "chain" and name != "ScipyIVP"
+    plan_nh = add_knife_edge(rng, dict(scene), prob=0.3) if nh else scene  # (drawn last: earlier draws are unchanged)
+    if nh and plan_nh.get("nonholonomic"):
+        scene["nonholonomic"] = plan_nh["nonholonomic"]
     return {
         "scene": scene,
         "kind": kind,
@@ -260,6 +264,8 @@ def execute(plan, out, log):
             out["probes"]["contact_present"] += 1
         if getattr(B, "rods", None):
             out["probes"]["rod_present"] += 1
+        if getattr(B, "nonholonomic", None):
+            out["probes"]["nonholonomic_present"] += 1
         try:
             for k in plan["splits"]:
                 if k < 1 or k >= N:
